@@ -826,3 +826,30 @@ impl Dual2 {
         self.to_dual_py()
     }
 }
+
+// verification hooks: what Python's pickle does with these classes - cls(*obj.__getnewargs__()) followed by
+// __setstate__(obj.__getstate__()) - emulated without any Python-side object other than the bytes
+#[cfg(feature = "verif")]
+impl Dual {
+    pub fn verif_py_pickle(&self) -> Result<Dual, String> {
+        let (real, vars, dual) = self.__getnewargs__().map_err(|_| "__getnewargs__ failed".to_string())?;
+        let mut o = Dual::new_py(real, vars, dual).map_err(|_| "cls(*__getnewargs__()) failed".to_string())?;
+        Python::with_gil(|py| {
+            let st = self.__getstate__(py).map_err(|_| "__getstate__ failed".to_string())?;
+            o.__setstate__(st).map_err(|_| "__setstate__ failed".to_string())
+        })?;
+        Ok(o)
+    }
+}
+#[cfg(feature = "verif")]
+impl Dual2 {
+    pub fn verif_py_pickle(&self) -> Result<Dual2, String> {
+        let (real, vars, dual, dual2) = self.__getnewargs__().map_err(|_| "__getnewargs__ failed".to_string())?;
+        let mut o = Dual2::new_py(real, vars, dual, dual2).map_err(|_| "cls(*__getnewargs__()) failed".to_string())?;
+        Python::with_gil(|py| {
+            let st = self.__getstate__(py).map_err(|_| "__getstate__ failed".to_string())?;
+            o.__setstate__(st).map_err(|_| "__setstate__ failed".to_string())
+        })?;
+        Ok(o)
+    }
+}
